@@ -150,11 +150,15 @@ func checkC07(w *World, r *Report) {
 					if !isPhi || !isIntegerType(phi.Type()) || isRangeIndexPhi(phi) {
 						continue
 					}
-					for _, lt := range l.Latches {
-						bo, isAdd := phiEdge(phi, lt).(*ssa.BinOp)
-						if !isAdd || bo.Op != token.ADD || bo.X != ssa.Value(phi) {
-							continue
+					var incs []*ssa.BinOp
+					for bb := range l.body() {
+						for _, in2 := range bb.Instrs {
+							if bo, isAdd := in2.(*ssa.BinOp); isAdd && bo.Op == token.ADD && bo.X == ssa.Value(phi) {
+								incs = append(incs, bo)
+							}
 						}
+					}
+					for _, bo := range incs {
 						cond := sym.PathCond(l.Header, bo.Block(), nil)
 						for _, a := range cond.atoms() {
 							if a.subj == "" {
